@@ -1661,6 +1661,33 @@ def run(index, rep, tier):
                                   "%s loops with `%s`: `%s` does not raise at the end of the stream, it returns None (or '') every time it is asked, so when the document ends before the sentinel the loop never terminates - every prefix of a valid document that stops inside this statement hangs the reader" % (fi.qualname, norm(c)[:60], norm(a0)[:40]))
         rep.ob("R20.27", "src/dendropy/dataio", "%d two-argument iter() calls in the readers examined" % n27, True)
 
+    # ---- R20.28 NCHAR belongs to the characters block that declared it
+    with rep.section("R20.28"):
+        rep.rule("R20.28", "NCHAR belongs to the characters block that declared it: `_file_specified_nchar` is reset to None at the start of every CHARACTERS / DATA block and set by that block's DIMENSIONS, so it is read only by routines the characters-block parser reaches (the matrix statement and its row readers). A statement of another block - CHARSET in a SETS block - that used it as its yardstick would compare positions with None (TypeError, an internal error, when the last characters block had no DIMENSIONS) or with the width of the wrong matrix; it measures against the matrix it is linked to")
+        NRQ = "dendropy.dataio.nexusreader.NexusReader"
+        nrk = index.klass(NRQ)
+        start = nrk.methods.get("_parse_characters_data_block")
+        if start is None:
+            raise AnalysisError("R20.28: NexusReader._parse_characters_data_block is gone")
+        reach, work = set(), [start]
+        while work:
+            f_ = work.pop()
+            if f_.qualname in reach:
+                continue
+            reach.add(f_.qualname)
+            for c in calls_in(f_.node, nested=True):
+                if isinstance(c.func, ast.Attribute) and norm(c.func.value) == "self" and c.func.attr in nrk.methods:
+                    work.append(nrk.methods[c.func.attr])
+        n28 = 0
+        for mname, mf in sorted(nrk.methods.items()):
+            reads = [x for x in ast.walk(mf.node) if isinstance(x, ast.Attribute) and x.attr == "_file_specified_nchar" and isinstance(x.ctx, ast.Load)]
+            if not reads:
+                continue
+            n28 += 1
+            rep.check(mf.qualname in reach, "R20.28", mf.qualname, "NCHAR of the last characters block used outside it", fn_where(mf, reads[0]), "%s is part of the characters-block parser" % mname,
+                      "NexusReader.%s reads `self._file_specified_nchar` but is not reached from the characters-block parser: the field holds the NCHAR of the LAST characters block (None when that block had no DIMENSIONS) - `BEGIN CHARACTERS; END; BEGIN SETS; CHARSET x = 1-3; END;` after a complete DATA block fails with TypeError ('<' between NoneType and int), and with two matrices a CHARSET linked to the first is clipped to the width of the second" % mname)
+        rep.floor("R20.28", "readers of _file_specified_nchar", 4, n28)
+
 
 def _branch_calls_raiser(cfg, n):
     for lab, t in n.succ:
